@@ -60,11 +60,24 @@ func h_sig_flags() uint32 {
 
 // the ECDSA verdict: an uninterpreted function of (key, signature, digest) - the same for the code and the reference
 func h_stub_ecdsa() {
-	zzverif.Stub("btc.EcdsaVerify: uninterpreted function of (public key, signature, digest)")
-	zzverif.Replace("btc.EcdsaVerify", func(k, s, h []byte) bool {
+	zzverif.Stub("btc.EcdsaVerify: uninterpreted function of (public key, signature, digest); natively imposed through the btc.EC_Verify hook with the model's values")
+	verdict := func(k, s, h []byte) bool {
 		in := append(append(append([]byte{byte(len(k)), byte(len(s))}, k...), s...), h...)
 		return zzverif.Fn("ecdsa-verdict", 1, in)[0]&1 == 1
-	})
+	}
+	if zzverif.Symbolic() {
+		zzverif.Replace("btc.EcdsaVerify", verdict)
+	} else {
+		btc.EC_Verify = verdict // the speed-up hook of lib/btc: EcdsaVerify calls it for non-empty arguments
+	}
+}
+
+// EcdsaVerify refuses empty keys and signatures before consulting anything: the reference goes through the same gate
+func h_ecdsa(k, s, h []byte) bool {
+	if !zzverif.Symbolic() && (len(k) == 0 || len(s) == 0) {
+		return false
+	}
+	return btc.EcdsaVerify(k, s, h)
 }
 
 func h_sig_tx() *btc.Tx {
@@ -73,6 +86,7 @@ func h_sig_tx() *btc.Tx {
 	tx.TxIn = []*btc.TxIn{{Sequence: 0xffffffff}}
 	tx.TxOut = []*btc.TxOut{{Value: 1, Pk_script: []byte{0x51}}}
 	tx.AllocVerVars() // as every caller of the interpreter does
+	tx.Spent_outputs = []*btc.TxOut{{Value: 5, Pk_script: []byte{0x51}}}
 	return tx
 }
 
@@ -88,17 +102,15 @@ func ref_check_ecdsa(c *SigChecker, sig, key, scriptCode []byte, sv int) bool {
 	} else {
 		sh = c.Tx.SignatureHash(scriptCode, c.Idx, ht)
 	}
-	return btc.EcdsaVerify(key, sig, sh)
+	return h_ecdsa(key, sig, sh)
 }
 
 // C01: OP_CHECKSIG / OP_CHECKSIGVERIFY (legacy and segwit v0) for every combination of signature shape, key shape
 // and signature-related flags, with the ECDSA verdict an uninterpreted function: encoding gates, FindAndDelete +
 // CONST_SCRIPTCODE, NULLFAIL, resulting stack - against interpreter.cpp (EvalChecksigPreTapscript).
 func H_C01_CheckSig() {
-	if !zzverif.Symbolic() {
-		return // the uninterpreted verdict has no native counterpart; leaf predicates have their own harnesses
-	}
 	h_stub_ecdsa()
+	defer func() { btc.EC_Verify = nil }()
 	op := []byte{0xac, 0xad}[zzverif.Enum("op", 2)]
 	sig, key := h_sig("sig"), h_key("key")
 	flags := h_sig_flags()
@@ -279,10 +291,8 @@ func h_multisig_run(op byte, rst [][]byte, scr []byte, flags uint32, sv int, fir
 // NULLDUMMY, NULLFAIL and MINIMALDATA in every combination. Signatures are empty and keys one byte, so no
 // signature check succeeds: what is decided is the stack discipline and the limits - against interpreter.cpp.
 func H_C01_MultiSigOperands() {
-	if !zzverif.Symbolic() {
-		return
-	}
 	h_stub_ecdsa()
+	defer func() { btc.EC_Verify = nil }()
 	op := []byte{0xae, 0xaf}[zzverif.Enum("op", 2)]
 	var flags uint32
 	if zzverif.Bool("NULLDUMMY") {
@@ -320,10 +330,8 @@ func H_C01_MultiSigOperands() {
 // 1..2 (3) signatures of every shape, flag sets from a case split, legacy and segwit v0, the first signature
 // optionally embedded in the script (FindAndDelete / CONST_SCRIPTCODE), ECDSA verdicts an uninterpreted function.
 func H_C01_MultiSigWalk() {
-	if !zzverif.Symbolic() {
-		return
-	}
 	h_stub_ecdsa()
+	defer func() { btc.EC_Verify = nil }()
 	op := []byte{0xae, 0xaf}[zzverif.Enum("op", 2)]
 	sets := []uint32{0, VER_NULLFAIL, VER_NULLDUMMY, VER_DERSIG | VER_STRICTENC, VER_LOW_S, VER_WITNESS_PUBKEY, VER_CONST_SCRIPTCODE,
 		VER_DERSIG | VER_STRICTENC | VER_LOW_S | VER_NULLDUMMY | VER_NULLFAIL | VER_WITNESS_PUBKEY | VER_CONST_SCRIPTCODE | VER_MINDATA}
